@@ -284,7 +284,7 @@ def main():
                 violations.append((p, "no-failing-input-found"))
         elif obligations_broken:
             what = {"build_ok": build_ok, "forbidden": forbidden, "theorems": names, "discharged": discharged, "axioms": axioms, "build_output": bout[-3000:]}
-            found = search_neighbourhood(pid, cfg, binp, ops, [], workdir, rng, known)
+            found = search_neighbourhood(pid, cfg, binp, ops, [], workdir, rng, known, deep=True)
             p = found or write_replay(workdir, "%s-obligation.json" % pid, dict(what, what="proof obligation of Props/%s.lean no longer checks against the regenerated model" % pid))
             violations.append((p, "" if found else "no-failing-input-found"))
     if os.environ.get("NF_HARVEST") == "1":
@@ -418,7 +418,7 @@ def shrink_scenario(pid, cfg, binp, scen_ops, workdir, known, nouf_bin=None, bud
     return cur
 
 
-def search_neighbourhood(pid, cfg, binp, ops, disagree, workdir, rng, known):
+def search_neighbourhood(pid, cfg, binp, ops, disagree, workdir, rng, known, deep=False):
     """the correspondence or an obligation broke: look for a concrete input on which the property fails
     on the implementation — neighbours (mutations, truncations, shrinks) of the disagreeing scenarios
     and the property's targeted families."""
@@ -427,10 +427,17 @@ def search_neighbourhood(pid, cfg, binp, ops, disagree, workdir, rng, known):
         sc = [o for o in scenario_of(ops, line) if o.get("op") != "scenario"]
         scens.append(("neigh", sc))
     extra = cfg["families"](rng, "quick")[:200]
+    if deep:
+        # a proof obligation broke (the regenerated model differs from the one the theorems are about): the executable model follows
+        # the regenerated items, so the oracle is meaningful on every input — widen the search to the thorough-tier families
+        # (bounded-exhaustive small histories included), capped so that the search stays within a few minutes
+        big = cfg["families"](rng, "thorough")
+        rng.shuffle(big)
+        extra = extra + big[:5000]
     if not scens and not extra:
         return None
     try:
-        ops2, verdicts2, _ = run_pipeline(binp, scens + extra, workdir, "search", mutate_per=6, rng=rng)
+        ops2, verdicts2, _ = run_pipeline(binp, scens + extra, workdir, "search", mutate_per=(1 if deep else 6), rng=rng)
     except Exception:
         return None
     st = analyse(pid, cfg, ops2, verdicts2, known)
